@@ -143,6 +143,8 @@ def run(ctx):
     ctx.rule(octave_validation)
     ctx.rule(no_derived_state)
     ctx.rule(names)
+    ctx.rule(stateless)
+    ctx.rule(total_on_domain)
     ctx.info["exhaustive"] = False
 
 
@@ -277,3 +279,56 @@ def no_derived_state(ctx, R="R-C19/no-derived-state"):
 def names(ctx, R="R-C19/names"):
     from .c08 import family_names_resolve
     family_names_resolve(ctx, R, "scales.ScalingFunction", {"linear": "LinearScaling", "octave": "OctaveScaling", "mel": "MelScaling", "bark": "BarkScaling"})
+
+
+
+def stateless(ctx, R="R-C19/no-derived-state"):
+    """both maps are functions of their argument and the (public, assignable) parameters only: no memo, no class / module state"""
+    from .c20 import no_shared_state
+    prog = ctx.prog
+    for c in [k for k in prog.subclasses(prog.cls("scales.ScalingFunction")) if prog.is_concrete(k)]:
+        for meth in ("hertz_to_scale", "scale_to_hertz"):
+            f = prog.find_method(c, meth)
+            if f is not None:
+                no_shared_state(ctx, R, f, "%s.%s" % (c.name, meth))
+
+
+def total_on_domain(ctx, R="R-C19/total"):
+    """Neither map refuses a value of its domain: a raise whose condition can hold for a frequency in [0, 100 kHz] (or for the
+    scale value of one) makes the round trip fail there."""
+    prog = ctx.prog
+    from ..symeval import SymEval
+    for c in [k for k in prog.subclasses(prog.cls("scales.ScalingFunction")) if prog.is_concrete(k)]:
+        if c.name in ("LinearScaling", "OctaveScaling"):
+            continue  # parameterised domains: handled by the validation / assumption clauses
+        try:
+            ff, F = extract(prog, c, "hertz_to_scale", "x")
+        except Exception:
+            continue
+        dom_x = RF.Interval(Fraction(0), DOM_HI)
+        try:
+            fp = RF.pieces(F, "x", dom_x, cc.strip_cond)
+            lo = S.evaluate(fp[0][1], {"x": dom_x.lo})
+            hi = S.evaluate(fp[-1][1], {"x": dom_x.hi})
+            dom_s = RF.Interval(lo, hi) if isinstance(lo, Fraction) and isinstance(hi, Fraction) else None
+        except Exception:
+            dom_s = None
+        for meth, var, dom in (("hertz_to_scale", "x", dom_x), ("scale_to_hertz", "s", dom_s)):
+            f = prog.own_method(c, meth)
+            if dom is None:
+                continue
+            ev = SymEval(prog, f, rename={f.params[1]: var}).run()
+            for g, node in ev.raises:
+                g2 = S.subst(g, {S.sym(f.params[1]): S.sym(var)})
+                try:
+                    sub = RF.test_interval(g2, var, dom)
+                except Exception:
+                    sub = "?"
+                if sub == "?" or sub is None and False:
+                    ctx.error(R, "cannot decide whether %s.%s can raise inside its domain: %s" % (c.name, meth, S.show(g2)[:100]))
+                    continue
+                feasible = sub is not None and (not isinstance(sub, list) or bool(sub))
+                ctx.check(not feasible, R, f, node, "%s.%s raises for no value of its domain %s" % (c.name, meth, dom),
+                          "%s.%s raises when %s, which holds on %s inside the domain %s: the round trip fails there" % (c.name, meth, S.show(g2)[:80], sub, dom))
+            if not ev.raises:
+                ctx.ok(R, f.loc(), "%s.%s raises for no value of its domain" % (c.name, meth))
